@@ -89,9 +89,45 @@ class Recorder:
                 else:
                     row.append([{d: (self.note_val(w[d]) if d in w else "Z") for d in self.D} for w in cell])
             st["par"].append(row)
+        st["sha"] = self.digests()
         st["copies"] = [("ok" if isinstance(x, dict) else x) for x in pr["cont"]]
         st["copies_equal"] = all(x == pr["cont"][0] for x in pr["cont"])
         return st
+
+    def digests(self):
+        """byte-level digests for the frame conditions (C12): data trees, parity streams, content copies, and
+        the list of files that are none of these (allowed: the lock file beside the first content copy)"""
+        import hashlib
+        a = self.a
+        h = hashlib.sha1()
+        for d in range(a.conf.nd):
+            snap = a.snapshot_tree(a.conf.disk_names[d])
+            for k in sorted(snap):
+                h.update(repr((k, snap[k][0], snap[k][1], snap[k][2], snap[k][4])).encode())
+        def fsha(p):
+            if not os.path.exists(p):
+                return "none"
+            with open(p, "rb") as f:
+                b = f.read()
+            return "empty" if not b else hashlib.sha1(b).hexdigest()[:16]
+        ps = ["+".join(fsha(a.pfile(l, s)) for s in range(a.conf.splits[l])) for l in range(a.conf.np)]
+        cs = [fsha(a.cfile(c)) for c in range(a.conf.copies)]
+        extra = []
+        for top in sorted(os.listdir(a.root)):
+            p = os.path.join(a.root, top)
+            if top in a.conf.disk_names or top in ("snapraid.conf", "urandom") or top.startswith(("log.", "trace.")):
+                continue
+            if os.path.isdir(p):
+                for dp, dn, fn in os.walk(p):
+                    for n in fn:
+                        rel = os.path.relpath(os.path.join(dp, n), a.root)
+                        role = a.role(os.path.join(dp, n))
+                        if role.startswith(("parity:", "content:")) or (role == "lock" and rel == "c0/content.lock"):
+                            continue
+                        extra.append(rel)
+            else:
+                extra.append(top)
+        return {"f": h.hexdigest()[:16], "p": ps, "c": cs, "x": ",".join(extra)}
 
     def hs(self, h):
         if isinstance(h, str):
